@@ -142,8 +142,12 @@ func GetKeystoreFromJson(keysJson []byte) (*Keystore, error) {
 // NOTE: this func will leave the masterKeyPriv derived
 func (a *AddrManager) checkPassword(passphrase []byte) error {
 	if a.unlocked {
-		saltedPassphrase := append(a.privPassphraseSalt[:],
-			passphrase...)
+		// build the salted passphrase in a fresh buffer: appending an empty
+		// passphrase to a.privPassphraseSalt[:] would alias the salt itself,
+		// and zeroing the buffer below would then wipe the salt.
+		saltedPassphrase := make([]byte, 0, saltSize+len(passphrase))
+		saltedPassphrase = append(saltedPassphrase, a.privPassphraseSalt[:]...)
+		saltedPassphrase = append(saltedPassphrase, passphrase...)
 		hashedPassphrase := sha512.Sum512(saltedPassphrase)
 		zero.Bytes(saltedPassphrase)
 		if !bytes.Equal(hashedPassphrase[:], a.hashedPrivPassphrase[:]) {
